@@ -16,6 +16,12 @@ CLAIMS = {
             "Every path of depth<=3 over six boundary indices below several hundred seeds (selected by enumerating seed counters with the reference so that short, leading-zero parent scalars are present), plus structured entropy families for all five mnemonic sizes, is derived by the implementation and by an independent reference and compared as serialized strings. Exhaustive inside those bounds; says nothing about seeds/paths outside them.",
             "trusts HMAC-SHA512/SHA-256/RIPEMD-160 and pocec's secp256k1 group operations (shared with the reference); seeds are counters, not arbitrary",
             "DESIGN.md §C18"),
+    "C19": ("model_checking",
+            "explicit-state BFS over operation histories on the real ldb driver against a nested-map reference model (replay per transition)",
+            "seqx",
+            "All histories up to the scenario depth (5-7 operations; 3 from a populated committed tree) over Begin/Commit/Rollback/Reopen/CreateTop/NewBucket/DeleteBucket/Put/Delete/Clear with core alphabets chosen to collide (names that are prefixes of one another, names imitating the internal index/depth prefixes, keys spelling child paths), plus every operation of a larger adversarial name/key alphabet as a one-step probe from every reached state. After every transition the API view (inside the transaction and from a read transaction), the raw physical keys parsed back by an independent inverse of the flat layout, and adversarial read probes are compared with the reference. The implementation is the model: every trace runs on the real driver.",
+            "goleveldb transactions and MemStorage trusted; single writer; stale bucket handles not explored; real-directory store only in the thorough tier",
+            "DESIGN.md §C19"),
 }
 
 NOT_YET = "harness not built yet in this round (see DESIGN.md §6 build order); not claimed until its check is silent on the tree and kills its mutants"
